@@ -6,5 +6,5 @@ git -C /tmp/wt checkout -q --detach "$(git -C /repo rev-parse HEAD)"; git -C /tm
 if ! git -C /tmp/wt apply "$S/patch.diff"; then echo "PATCH DOES NOT APPLY"; exit 3; fi
 cd /tmp; /venv/bin/python -W ignore "$S/demo.py" /tmp/wt > /tmp/demo_changed.out 2>&1; echo "demo on changed tree: exit $?"
 /venv/bin/python -W ignore "$S/demo.py" /repo > /tmp/demo_clean.out 2>&1; echo "demo on clean tree: exit $?"
-cd /verif; VERIF_REPO=/tmp/wt ./check "$P" 2>&1 | grep -E "VIOLATION|^\[$P\]|HARNESS|KNOWN|what:" | cut -c1-330 | head -8
+cd /verif; VERIF_REPO=/tmp/wt ./check "$P" 2>&1 | grep -v "^KNOWN-FINDING" | grep -E "VIOLATION|^\[$P\]|HARNESS|what:" | cut -c1-330 | head -8
 git -C /tmp/wt checkout -q -- .
